@@ -2,6 +2,7 @@ import Mkdb.Proofs.Aggregate
 import Mkdb.Proofs.NoPanicExec
 import Mkdb.Proofs.GroupNoAgg
 import Mkdb.Proofs.AliasCapture
+import Mkdb.Proofs.Meaning9
 /-!
 # C07 — COUNT, AVG and GROUP BY compute true aggregates
 
@@ -121,5 +122,397 @@ theorem C07_avg_partial (x : Int) (n : Nat) : runningAvg [x] = x ∧ runningAvg 
 from round(sum/count): avg of 2,1,1 is 2, of 1,1,2 is 1, while round(4/3) = 1. -/
 theorem C07_avg_counterexample : runningAvg [2, 1, 1] = 2 ∧ runningAvg [1, 1, 2] = 1 ∧ roundDiv 4 3 = 1 :=
   runningAvg_counterexample
+
+end Mkdb.Exec
+
+/-! ## The executor against the reference meaning, for aggregates and GROUP BY
+
+`Spec.meaning` / `Spec.satisfies` are the pair the differential-testing judge evaluates on the output
+of the real implementation (`Mkdb/Driver/Exec.lean`); see the same section of `Mkdb/Props/C05.lean`.
+The reference meaning groups the *source* rows by the distinct tuples of grouping values and computes
+COUNT(*) as the number of rows of the group, COUNT(col) as the number of non-NULL values, AVG as the
+rounded mean; a select-list element that is not an aggregate has a meaning only if it evaluates on
+every row of the group and has the same value on all of them (a grouping column has; standard SQL
+forbids anything else; `validateGroupBy` checks bare column references only).  Without GROUP BY one
+row for the whole input, all zeros when it is empty.  The executor aggregates the *projected* rows
+and takes a non-aggregate element from the first row of the group it meets. -/
+namespace Mkdb.Exec
+open Mkdb.Sql Mkdb.Exec.SelectP Mkdb.Exec.MeaningP Mkdb.Exec.NoPanicP Mkdb.Exec.JoinP
+
+/-- **C07.result_is_the_reference_meaning**: whatever a single-table SELECT with COUNT(*) /
+COUNT(col) and / or GROUP BY (with or without aggregates) answers is what the query means.  If
+`evaluateSelect` answers `(rows, hdr)` then the query has a reference meaning `want` - one row per
+distinct combination of grouping values in order of first occurrence, each with the true counts of
+its group; without GROUP BY one row for the whole input, all zeros when it is empty -, `hdr` is the
+header the judge computes, the ORDER BY keys resolve against it and are comparable, the answer is
+exactly `cut (sortRows keys want)`, and the judge's test `Spec.satisfies q hdr want rows` accepts it.
+Hypotheses: `hgrouped` - the select list holds only COUNTs, literals and the columns the GROUP BY
+references designate (`groupedQuery`, a test on the query alone: a valid grouping query without AVG;
+the executor also answers a query that lists something else next to an aggregate, with the value of
+the first row of the group, and such a query has no reference meaning:
+`C07_ungrouped_expression_has_no_meaning`); `hstar` - the select list does not start with `*`
+(`C07_star_with_group_by_is_refused`); `hgroups` - the query has an aggregate or a GROUP BY
+(otherwise it is C05's theorem); `hwhere` as in `C05_result_is_the_reference_meaning`. -/
+theorem C07_result_is_the_reference_meaning {fetch : Bytes → Option Table} {q : Select}
+    {t : TableName} {rows : List Row} {hdr : List Field}
+    (hfrom : q.from_ = some (.table t)) (hstar : isStar q.list = false) (hgroups : groups q = true)
+    (hgrouped : groupedQuery q = true) (hwhere : whereIsBoolean q = true)
+    (h : evaluateSelect fetch q = .ok (rows, hdr)) :
+    ∃ want keys, Spec.meaning fetch q = some want ∧ hdr = judgeHeader fetch q ∧
+      Spec.sortKeys q hdr = some keys ∧
+      (∀ a ∈ want, ∀ b ∈ want, KeyComparable keys a b) ∧
+      rows = cut q.lim (sortRows keys want) ∧
+      Spec.satisfies q hdr want rows = true := by
+  obtain ⟨want, keys, hm, hh, hk, hcomp, rfl⟩ := agg_single_result hfrom hstar hgroups hwhere
+    (groupConst_of_groupedQuery hgrouped fetch _) h
+  exact ⟨want, keys, hm, (judgeHeader_of hh).symm, hk, hcomp, rfl,
+    satisfies_perm (comparedExactly_groups hgroups) hk (List.Perm.refl _) hcomp⟩
+
+/-- **C07.result_is_the_reference_meaning_with_avg**: the same for any select list, AVG included,
+under a hypothesis on the data instead of the query: on the rows of the table every select-list
+element that is not a COUNT is constant on each group (`nonCountsConstantOnGroups`, a decidable test
+on the table and the query).  For an AVG this is the case of `C07_avg_partial` - all averaged values
+of a group equal - in which the code's cumulative average, rounded after every row, is the rounded
+mean the reference meaning asks for; without it the statement is false (`C07_avg_counterexample`,
+the known finding). -/
+theorem C07_result_is_the_reference_meaning_with_avg {fetch : Bytes → Option Table} {q : Select}
+    {t : TableName} {rows : List Row} {hdr : List Field}
+    (hfrom : q.from_ = some (.table t)) (hstar : isStar q.list = false) (hgroups : groups q = true)
+    (hconst : nonCountsConstantOnGroups fetch q = true) (hwhere : whereIsBoolean q = true)
+    (h : evaluateSelect fetch q = .ok (rows, hdr)) :
+    ∃ want keys, Spec.meaning fetch q = some want ∧ hdr = judgeHeader fetch q ∧
+      Spec.sortKeys q hdr = some keys ∧
+      (∀ a ∈ want, ∀ b ∈ want, KeyComparable keys a b) ∧
+      rows = cut q.lim (sortRows keys want) ∧
+      Spec.satisfies q hdr want rows = true := by
+  obtain ⟨want, keys, hm, hh, hk, hcomp, rfl⟩ := agg_single_result hfrom hstar hgroups hwhere
+    (groupConst_of_nonCountsConstantOnGroups hfrom hconst) h
+  exact ⟨want, keys, hm, (judgeHeader_of hh).symm, hk, hcomp, rfl,
+    satisfies_perm (comparedExactly_groups hgroups) hk (List.Perm.refl _) hcomp⟩
+
+/-- **C07.meaningful_query_is_answered** (the converse): a single-table SELECT with aggregates and /
+or GROUP BY that has a reference meaning `want`, whose ORDER BY keys resolve against the judge's
+header and are comparable on `want`, is not refused: the executor answers with that header and
+exactly `cut (sortRows keys want)`, and the judge's test accepts the answer.  No hypothesis on the
+shape of the select list: a reference meaning exists only if every non-aggregate element evaluates
+on every row and is constant on each group.
+Hypotheses: `havg` - in every group the values an AVG averages are equal (`avgGroupsConstant`, a
+decidable test; true of every query without AVG: `C07_avgGroupsConstant_of_noAvg`; the known
+finding); `hws` - every stored row has one value per column (`WellShaped`; on a short row the
+reference meaning counts the missing value as NULL while the executor panics:
+`C07_short_row_panics`); `hstar`, `hgroups` as above. -/
+theorem C07_meaningful_query_is_answered {fetch : Bytes → Option Table} {q : Select}
+    {t : TableName} {want : List Row} {keys : List (Nat × Bool)}
+    (hfrom : q.from_ = some (.table t)) (hstar : isStar q.list = false) (hgroups : groups q = true)
+    (havg : avgGroupsConstant fetch q = true) (hws : WellShaped fetch)
+    (hm : Spec.meaning fetch q = some want)
+    (hk : Spec.sortKeys q (judgeHeader fetch q) = some keys)
+    (hcomp : ∀ a ∈ want, ∀ b ∈ want, KeyComparable keys a b) :
+    evaluateSelect fetch q = .ok (cut q.lim (sortRows keys want), judgeHeader fetch q) ∧
+      Spec.satisfies q (judgeHeader fetch q) want (cut q.lim (sortRows keys want)) = true :=
+  ⟨agg_single_answered hfrom hstar hgroups (avgConst_of_avgGroupsConstant hfrom havg) hws hm hk hcomp,
+   satisfies_perm (comparedExactly_groups hgroups) hk (List.Perm.refl _) hcomp⟩
+
+/-- a select list without AVG passes the test `avgGroupsConstant` on any tables -/
+theorem C07_avgGroupsConstant_of_noAvg (fetch : Bytes → Option Table) {q : Select}
+    (h : noAvg q.list = true) : avgGroupsConstant fetch q = true :=
+  avgGroupsConstant_of_noAvg fetch h
+
+/-- **C07.aggregate_rows_is_the_grouping_of_the_meaning**: the heart of the theorems above, on its
+own.  For source rows `src` on each of which every select-list element has a value (`hproj`) and
+everything but the COUNTs is constant on each group (`hconst`), `aggregateRows` applied to the
+projected rows answers `out` if and only if the grouping part of the reference meaning (`specAgg`,
+the text of `Spec.meaning` from "grouping columns" on) of `src` is `out`: the same groups in the
+same order, the same counts, the same values, the same row of zeros. -/
+theorem C07_aggregate_rows_is_the_grouping_of_the_meaning {q : Select} {fields : List Field}
+    {src out : List Row} (hgroups : groups q = true)
+    (hres : ColumnsResolve q.list fields) (hproj : Projects q.list fields src)
+    (hconst : ∀ idxs, q.groupBy.mapM (groupIdx q.list) = some idxs →
+      GroupConst q.list fields (keyAt idxs) src) :
+    aggregateRows q.list q.groupBy (src.map (projRow q.list fields)) = .ok out ↔
+      specAgg q fields src = some out :=
+  aggregate_agree ((groups_iff q).1 hgroups) hres hproj hconst
+
+/-- **C07.meaning_demands_constant_elements**: a defined grouping part of the reference meaning
+says of the source rows (each as long as the header): every select-list element evaluates on every
+row, and every element that is neither a COUNT nor an AVG has one value on all rows of a group. -/
+theorem C07_meaning_demands_constant_elements {q : Select} {fields : List Field}
+    {src out : List Row} {idxs : List Nat}
+    (hgi : q.groupBy.mapM (groupIdx q.list) = some idxs) (hz : ¬(q.groupBy = [] ∧ src = []))
+    (hres : ColumnsResolve q.list fields) (hlen : ∀ r ∈ src, r.length = fields.length)
+    (h : specAgg q fields src = some out) :
+    Projects q.list fields src ∧ PlainConst q.list fields (keyAt idxs) src :=
+  specAgg_inv hgi hz hres hlen h
+
+/-- tables: `t(k, v, w)` with five rows in two groups, NULLs in `w`, equal `v` within each group;
+`s(v)` holding NULL and 1; `r(a, b)` with a row that is too short -/
+def exAggFetch (n : Bytes) : Option Table :=
+  if n = [116] then some ⟨[[107], [118], [119]],
+    [[.int 1, .int 10, .null], [.int 2, .int 5, .str [97]], [.int 1, .int 10, .str [98]],
+     [.int 2, .int 5, .null], [.int 1, .int 10, .str [99]]]⟩
+  else if n = [115] then some ⟨[[118]], [[.null], [.int 1]]⟩
+  else if n = [114] then some ⟨[[97], [98]], [[.int 1]]⟩
+  else none
+
+/-- `SELECT k, count(*), count(w) FROM t WHERE k >= 1 GROUP BY k ORDER BY k DESC LIMIT 5` -/
+def exAggQuery : Select :=
+  { list := [⟨.expr (.val (.col ⟨[], [107]⟩)), []⟩, ⟨.count none, []⟩, ⟨.count (some ⟨[], [119]⟩), []⟩]
+    from_ := some (.table ⟨[116], none⟩)
+    where_ := some (.pred ⟨.col ⟨[], [107]⟩, Generated.t_GTE, .lit (.int 1)⟩)
+    groupBy := [⟨[], [107]⟩]
+    orderBy := [⟨⟨[], [107]⟩, true⟩]
+    lim := { limitActive := true, limit := 5 } }
+
+/-- the same with `avg(v)` as a fourth column -/
+def exAvgQuery : Select := { exAggQuery with list := exAggQuery.list ++ [⟨.avg ⟨[], [118]⟩, []⟩] }
+
+/-- `SELECT count(*), count(w) FROM t WHERE k > 7`: no row passes -/
+def exZeroQuery : Select :=
+  { list := [⟨.count none, []⟩, ⟨.count (some ⟨[], [119]⟩), []⟩]
+    from_ := some (.table ⟨[116], none⟩)
+    where_ := some (.pred ⟨.col ⟨[], [107]⟩, Generated.t_GT, .lit (.int 7)⟩) }
+
+-- non-vacuity of `C07_result_is_the_reference_meaning` and `C07_meaningful_query_is_answered`
+example : exAggQuery.from_ = some (.table ⟨[116], none⟩) ∧ isStar exAggQuery.list = false ∧
+    groups exAggQuery = true ∧ groupedQuery exAggQuery = true ∧ whereIsBoolean exAggQuery = true ∧
+    noAvg exAggQuery.list = true := by decide
+example : evaluateSelect exAggFetch exAggQuery =
+    .ok ([[.int 2, .int 2, .int 1], [.int 1, .int 3, .int 2]],
+      [⟨[116], [107]⟩, ⟨[], "count(*)".toUTF8.toList⟩, ⟨[], "count(w)".toUTF8.toList⟩]) := by
+  decide +kernel
+example : Spec.meaning exAggFetch exAggQuery =
+    some [[.int 1, .int 3, .int 2], [.int 2, .int 2, .int 1]] := by decide +kernel
+example : Spec.sortKeys exAggQuery (judgeHeader exAggFetch exAggQuery) = some [(0, true)] := by
+  decide +kernel
+example : ∀ a ∈ ([[.int 1, .int 3, .int 2], [.int 2, .int 2, .int 1]] : List Row),
+    ∀ b ∈ ([[.int 1, .int 3, .int 2], [.int 2, .int 2, .int 1]] : List Row),
+      KeyComparable [(0, true)] a b := by decide +kernel
+/-- the table `t` alone: every row has one value per column -/
+def exAggFetchT (n : Bytes) : Option Table := if n = [116] then exAggFetch n else none
+example : WellShaped exAggFetchT := by
+  intro n t h r hr
+  unfold exAggFetchT at h
+  split at h
+  · rename_i hn
+    subst hn
+    simp only [exAggFetch, if_true, Option.some.injEq] at h
+    subst h
+    simp only [List.mem_cons, List.not_mem_nil, or_false] at hr
+    rcases hr with rfl | rfl | rfl | rfl | rfl <;> rfl
+  · cases h
+example : Spec.meaning exAggFetchT exAggQuery =
+    some [[.int 1, .int 3, .int 2], [.int 2, .int 2, .int 1]] ∧
+    Spec.sortKeys exAggQuery (judgeHeader exAggFetchT exAggQuery) = some [(0, true)] ∧
+    avgGroupsConstant exAggFetchT exAggQuery = true := by
+  decide +kernel
+-- the empty input without GROUP BY: one row of zeros, in the executor and in the meaning
+example : evaluateSelect exAggFetch exZeroQuery =
+    .ok ([[.int 0, .int 0]], [⟨[], "count(*)".toUTF8.toList⟩, ⟨[], "count(w)".toUTF8.toList⟩]) ∧
+    Spec.meaning exAggFetch exZeroQuery = some [[.int 0, .int 0]] ∧ groups exZeroQuery = true ∧
+    groupedQuery exZeroQuery = true := by
+  decide +kernel
+-- non-vacuity of `C07_result_is_the_reference_meaning_with_avg`: `v` is constant in each group
+example : nonCountsConstantOnGroups exAggFetch exAvgQuery = true ∧
+    avgGroupsConstant exAggFetch exAvgQuery = true ∧ noAvg exAvgQuery.list = false ∧
+    groupedQuery exAvgQuery = false ∧
+    groups exAvgQuery = true ∧ isStar exAvgQuery.list = false := by decide +kernel
+example : evaluateSelect exAggFetch exAvgQuery =
+      .ok ([[.int 2, .int 2, .int 1, .int 5], [.int 1, .int 3, .int 2, .int 10]],
+        [⟨[116], [107]⟩, ⟨[], "count(*)".toUTF8.toList⟩, ⟨[], "count(w)".toUTF8.toList⟩,
+         ⟨[], "avg(v)".toUTF8.toList⟩]) ∧
+    Spec.meaning exAggFetch exAvgQuery =
+      some [[.int 1, .int 3, .int 2, .int 10], [.int 2, .int 2, .int 1, .int 5]] := by
+  decide +kernel
+
+/-- `SELECT * FROM t GROUP BY k` -/
+def exStarGroup : Select :=
+  { list := [⟨.star, []⟩], from_ := some (.table ⟨[116], none⟩), groupBy := [⟨[], [107]⟩] }
+
+/-- **C07.star_with_group_by_is_refused** (why the theorems have `hstar`): for a select list that
+starts with `*` the reference meaning is the source rows whatever the GROUP BY, the executor refuses
+(`*` is no column a GROUP BY reference could designate).  The parser does not produce such a
+statement (`validateGroupBy`), the judge therefore never sees one. -/
+theorem C07_star_with_group_by_is_refused :
+    evaluateSelect exAggFetch exStarGroup = .err .groupByNotSelected ∧
+    (Spec.meaning exAggFetch exStarGroup).isSome = true ∧ groups exStarGroup = true := by decide
+
+/-- `SELECT v < 'x', count(*) FROM s` -/
+def exExprAgg : Select :=
+  { list := [⟨.expr (.pred ⟨.col ⟨[], [118]⟩, Generated.t_LT, .lit (.str [120])⟩), []⟩,
+             ⟨.count none, []⟩]
+    from_ := some (.table ⟨[115], none⟩) }
+
+/-- **C07.expression_next_to_aggregate_has_no_meaning**: `SELECT v < 'x', count(*) FROM s` on the
+rows NULL, 1 has no reference meaning - the comparison is ill-typed on the second row of the group
+(`1 < 'x'`), and an element of a grouping query must evaluate on every row of its group, not on the
+first only - so any answer or refusal is acceptable; the executor, as the Go code, projects every
+row before it aggregates and refuses with "incompatible types".  (The parser accepts the statement:
+`validateGroupBy` looks at column references only.  Before the reference meaning demanded every row
+it was `[[false, 2]]` and the judge would have reported the refusal.) -/
+theorem C07_expression_next_to_aggregate_has_no_meaning :
+    evaluateSelect exAggFetch exExprAgg = .err .incompat ∧
+    Spec.meaning exAggFetch exExprAgg = none := by decide
+
+/-- `SELECT k = 1, count(*) FROM t`: no GROUP BY, `k` is 1 on three rows and 2 on two -/
+def exUngroupedSingle : Select :=
+  { list := [⟨.expr (.pred ⟨.col ⟨[], [107]⟩, Generated.t_EQ, .lit (.int 1)⟩), []⟩, ⟨.count none, []⟩]
+    from_ := some (.table ⟨[116], none⟩) }
+
+/-- **C07.ungrouped_expression_on_one_table_has_no_meaning** (why `C07_result_is_the_reference_meaning`
+has `hgrouped`): `SELECT k = 1, count(*) FROM t` is answered - with the value of the first row,
+`true`, and the count 5 - although `k = 1` is not constant on the one group: the query is not a valid
+grouping query and has no reference meaning (any answer or refusal is acceptable). -/
+theorem C07_ungrouped_expression_on_one_table_has_no_meaning :
+    (∃ hdr, evaluateSelect exAggFetch exUngroupedSingle = .ok ([[.bool true, .int 5]], hdr)) ∧
+    Spec.meaning exAggFetch exUngroupedSingle = none ∧
+    groupedQuery exUngroupedSingle = false ∧
+    nonCountsConstantOnGroups exAggFetch exUngroupedSingle = false :=
+  ⟨⟨[⟨[], [63]⟩, ⟨[], "count(*)".toUTF8.toList⟩], by decide +kernel⟩, by decide +kernel⟩
+
+/-- `SELECT count(b) FROM r` -/
+def exShortRow : Select :=
+  { list := [⟨.count (some ⟨[], [98]⟩), []⟩], from_ := some (.table ⟨[114], none⟩) }
+
+/-- **C07.short_row_panics** (why `C07_meaningful_query_is_answered` has `hws`): on a stored row with
+fewer values than the table has columns - which no INSERT produces - `COUNT(b)` has the meaning `0`
+(a missing value counts as NULL) while the executor indexes past the end of the row. -/
+theorem C07_short_row_panics :
+    evaluateSelect exAggFetch exShortRow = .panic "projectColumns: row.Vals[idx]" ∧
+    Spec.meaning exAggFetch exShortRow = some [[.int 0]] ∧
+    avgGroupsConstant exAggFetch exShortRow = true := by
+  decide +kernel
+
+/-! ## Aggregates and GROUP BY over joins
+
+The nested loops deliver the rows of a join in another order than the relational definition lists
+them.  Groups, counts and the elements that are constant on each group do not depend on that order;
+the first row of a group does. -/
+
+/-- **C07.join_result_is_the_reference_meaning**: whatever a SELECT with COUNT / AVG / GROUP BY over
+any FROM clause (one table or a chain of INNER / LEFT / RIGHT joins) answers is what the query
+means, as a multiset of result rows.  If `evaluateSelect` answers `(rows, hdr)` then the query has a
+reference meaning `want`, `hdr` is the judge's header, the ORDER BY keys resolve against it and are
+comparable, the answer is `cut (sortRows keys got)` for a permutation `got` of `want` (the groups in
+the order in which the nested loops meet them), and the judge's test accepts it.
+Hypothesis `hconst`: everything in the select list but the COUNTs is constant on each group - either
+by the look of the query (`groupedQuery`: only COUNTs, literals and the columns the GROUP BY
+references designate - what standard SQL demands of a grouping query) or on the data at hand
+(`nonCountsConstantOnGroups`, a decidable test; it covers AVG over equal values, `C07_avg_partial`).
+Without it the executor still answers - with the value on the first row of the group its loops meet
+- a query that has no reference meaning: `C07_ungrouped_expression_has_no_meaning`.  `hstar`,
+`hgroups`, `hwhere` as in `C07_result_is_the_reference_meaning`. -/
+theorem C07_join_result_is_the_reference_meaning {fetch : Bytes → Option Table} {q : Select}
+    {tr : TableRef} {rows : List Row} {hdr : List Field}
+    (hfrom : q.from_ = some tr) (hstar : isStar q.list = false) (hgroups : groups q = true)
+    (hconst : groupedQuery q = true ∨ nonCountsConstantOnGroups fetch q = true)
+    (hwhere : whereIsBoolean q = true)
+    (h : evaluateSelect fetch q = .ok (rows, hdr)) :
+    ∃ want got keys, Spec.meaning fetch q = some want ∧ hdr = judgeHeader fetch q ∧
+      Spec.sortKeys q hdr = some keys ∧ got.Perm want ∧
+      (∀ a ∈ want, ∀ b ∈ want, KeyComparable keys a b) ∧
+      rows = cut q.lim (sortRows keys got) ∧
+      Spec.satisfies q hdr want rows = true := by
+  have hc := hconst.elim (fun h => groupConst_of_groupedQuery h fetch tr)
+    (fun h => groupConst_of_nonCountsConstantOnGroups hfrom h)
+  obtain ⟨want, got, keys, hm, hh, hk, hp, hcomp, rfl⟩ :=
+    agg_any_result hfrom hstar hgroups hwhere hc h
+  exact ⟨want, got, keys, hm, (judgeHeader_of hh).symm, hk, hp, hcomp, rfl,
+    satisfies_perm (comparedExactly_groups hgroups) hk hp hcomp⟩
+
+/-- **C07.join_meaningful_query_is_answered** (the converse): a SELECT with aggregates / GROUP BY
+over any FROM clause that has a reference meaning `want`, whose ORDER BY keys resolve against the
+judge's header and are comparable on `want`, is not refused: the executor answers with that header
+and `cut (sortRows keys got)` for a permutation `got` of `want`, and the judge's test accepts the
+answer.  Hypotheses `havg`, `hws`, `hstar`, `hgroups` as in `C07_meaningful_query_is_answered`; none
+on the shape of the select list (a reference meaning exists only for a query whose non-aggregate
+elements are constant on each group, and such an element does not depend on the order of the rows). -/
+theorem C07_join_meaningful_query_is_answered {fetch : Bytes → Option Table} {q : Select}
+    {tr : TableRef} {want : List Row} {keys : List (Nat × Bool)}
+    (hfrom : q.from_ = some tr) (hstar : isStar q.list = false) (hgroups : groups q = true)
+    (havg : avgGroupsConstant fetch q = true) (hws : WellShaped fetch)
+    (hm : Spec.meaning fetch q = some want)
+    (hk : Spec.sortKeys q (judgeHeader fetch q) = some keys)
+    (hcomp : ∀ a ∈ want, ∀ b ∈ want, KeyComparable keys a b) :
+    ∃ got, got.Perm want ∧
+      evaluateSelect fetch q = .ok (cut q.lim (sortRows keys got), judgeHeader fetch q) ∧
+      Spec.satisfies q (judgeHeader fetch q) want (cut q.lim (sortRows keys got)) = true := by
+  obtain ⟨got, hp, he⟩ := agg_any_answered hfrom hstar hgroups
+    (avgConst_of_avgGroupsConstant hfrom havg) hws hm hk hcomp
+  exact ⟨got, hp, he, satisfies_perm (comparedExactly_groups hgroups) hk hp hcomp⟩
+
+/-- **C07.groups_do_not_depend_on_row_order**: the grouping part of the reference meaning of two
+permutations of one list of source rows is the same multiset of result rows, when everything but
+the COUNTs is constant on each group: same distinct keys, same counts, same values. -/
+theorem C07_groups_do_not_depend_on_row_order {q : Select} {fields : List Field}
+    {src src' out' : List Row} {idxs : List Nat}
+    (hp : src'.Perm src) (hgi : q.groupBy.mapM (groupIdx q.list) = some idxs)
+    (hres : ColumnsResolve q.list fields) (hproj : Projects q.list fields src)
+    (hconst : GroupConst q.list fields (keyAt idxs) src)
+    (h : specAgg q fields src' = some out') :
+    ∃ out, specAgg q fields src = some out ∧ out'.Perm out :=
+  specAgg_perm hp hgi hres hproj hconst h
+
+/-- `t RIGHT JOIN u ON t.id = u.id` on the tables of `Mkdb/Proofs/Join.lean` -/
+def exJoinRU : TableRef :=
+  .join (.table ⟨Example.bt, none⟩) .right ⟨Example.bu, none⟩ Example.onC
+
+/-- `SELECT u.y, count(*), count(t.x) FROM t RIGHT JOIN u ON t.id = u.id GROUP BY u.y
+ORDER BY u.y DESC` -/
+def exJoinAgg : Select :=
+  { list := [⟨.expr (.val (.col ⟨Example.bu, Example.by_⟩)), []⟩, ⟨.count none, []⟩,
+             ⟨.count (some ⟨Example.bt, Example.bx⟩), []⟩]
+    from_ := some exJoinRU
+    groupBy := [⟨Example.bu, Example.by_⟩]
+    orderBy := [⟨⟨Example.bu, Example.by_⟩, true⟩] }
+
+-- non-vacuity of the two theorems: three groups, the unmatched right row counts 1 and 0
+example : exJoinAgg.from_ = some exJoinRU ∧ isStar exJoinAgg.list = false ∧ groups exJoinAgg = true ∧
+    groupedQuery exJoinAgg = true ∧ nonCountsConstantOnGroups Example.fetchX exJoinAgg = true ∧
+    whereIsBoolean exJoinAgg = true ∧ avgGroupsConstant Example.fetchX exJoinAgg = true := by
+  decide +kernel
+example : evaluateSelect Example.fetchX exJoinAgg =
+    .ok ([[.str [122], .int 1, .int 0], [.str [113], .int 2, .int 2], [.str [112], .int 2, .int 2]],
+      [⟨Example.bu, Example.by_⟩, ⟨[], "count(*)".toUTF8.toList⟩, ⟨[], "count(t.x)".toUTF8.toList⟩]) ∧
+    Spec.meaning Example.fetchX exJoinAgg =
+      some [[.str [112], .int 2, .int 2], [.str [113], .int 2, .int 2], [.str [122], .int 1, .int 0]] ∧
+    Spec.sortKeys exJoinAgg (judgeHeader Example.fetchX exJoinAgg) = some [(0, true)] := by
+  decide +kernel
+example : WellShaped Example.fetchX := by
+  intro n t h r hr
+  unfold Example.fetchX at h
+  split at h
+  · simp only [Option.some.injEq] at h
+    subst h
+    simp only [Example.Lx, List.mem_cons, List.not_mem_nil, or_false] at hr
+    rcases hr with rfl | rfl | rfl <;> rfl
+  · split at h
+    · simp only [Option.some.injEq] at h
+      subst h
+      simp only [Example.Rx, List.mem_cons, List.not_mem_nil, or_false] at hr
+      rcases hr with rfl | rfl | rfl <;> rfl
+    · cases h
+
+/-- `SELECT u.y = 'q', count(*) FROM t RIGHT JOIN u ON t.id = u.id WHERE t.x = 'b' OR u.y = 'q'` -/
+def exUngrouped : Select :=
+  { list := [⟨.expr (.pred ⟨.col ⟨Example.bu, Example.by_⟩, Generated.t_EQ, .lit (.str [113])⟩), []⟩,
+             ⟨.count none, []⟩]
+    from_ := some exJoinRU
+    where_ := some (.or (.pred ⟨.col ⟨Example.bt, Example.bx⟩, Generated.t_EQ, .lit (.str [98])⟩)
+                        (.pred ⟨.col ⟨Example.bu, Example.by_⟩, Generated.t_EQ, .lit (.str [113])⟩)) }
+
+/-- **C07.ungrouped_expression_has_no_meaning** (why the forward theorems have `hgrouped` /
+`hconst`): `SELECT u.y = 'q', count(*) FROM t RIGHT JOIN u ON t.id = u.id WHERE t.x = 'b' OR
+u.y = 'q'` has no reference meaning: `u.y = 'q'` is false on one and true on two of the three rows of
+the one group, so the query is not a valid grouping query and any answer or refusal is acceptable.
+The executor, as the Go code, answers with the value on the first row its loops meet - a RIGHT JOIN
+runs over the right table outside, the first row that passes WHERE is `(1, b, 1, p)`: `false`, 3.
+(Before the reference meaning demanded a constant value it took the first row in the order of the
+relational definition, `(1, a, 1, q)`: `true`, 3, and the judge would have reported a wrong result.)
+The parser accepts the statement: `validateGroupBy` looks at column references only. -/
+theorem C07_ungrouped_expression_has_no_meaning :
+    (∃ hdr, evaluateSelect Example.fetchX exUngrouped = .ok ([[.bool false, .int 3]], hdr)) ∧
+    Spec.meaning Example.fetchX exUngrouped = none ∧
+    groupedQuery exUngrouped = false ∧ nonCountsConstantOnGroups Example.fetchX exUngrouped = false :=
+  ⟨⟨[⟨[], [63]⟩, ⟨[], "count(*)".toUTF8.toList⟩], by decide +kernel⟩, by decide +kernel⟩
 
 end Mkdb.Exec
